@@ -83,6 +83,21 @@ def data_types(d):
     return items, [it for it in items.values() if it["kind"] in ("struct", "exception", "union")]
 
 
+def alias_types(d):
+    """typedefs and enums: emitted as newtypes with their own Message impl, decodable stand-alone"""
+    items = idlgen.all_items(d)
+    return items, [it for it in items.values() if it["kind"] in ("typedef", "enum")]
+
+
+def async_lines(r, d, it, v, want, tag, every):
+    out = []
+    for p in ("bin", "le", "cmp"):
+        if every or r.random() < 0.34:
+            chunks = ",".join(str(r.choice([0, 1, 1, 2, 3, 7, 64])) for _ in range(r.randrange(0, 12))) or "-"
+            out.append(f"ga {d['name']} {it['name']} {p} {chunks} {idlgen.sexp(v)} => {want} {tag}")
+    return out
+
+
 def requests_C02(docs, emitted, seed, tier):
     """conforming values of every declared type, every protocol, sync and async, + Default"""
     r = random.Random(seed * 31 + 2)
@@ -97,10 +112,16 @@ def requests_C02(docs, emitted, seed, tier):
                 for p in PROTOS:
                     if r.random() < (0.6 if tier == "quick" else 1.0):
                         out.append(f"gd {d['name']} {it['name']} {p} {idlgen.sexp(v)} => {want} C02")
-                if r.random() < 0.5:
-                    p = r.choice(["bin", "le", "cmp"])
-                    chunks = ",".join(str(r.choice([0, 1, 1, 2, 3, 7, 64])) for _ in range(r.randrange(0, 12))) or "-"
-                    out.append(f"ga {d['name']} {it['name']} {p} {chunks} {idlgen.sexp(v)} => {want} C02")
+                out += async_lines(r, d, it, v, want, "C02", every=not d["name"].startswith("r"))
+        # typedef / enum newtypes stand-alone (nothing follows them in the buffer)
+        items, aliases = alias_types(d)
+        for it in aliases:
+            for _ in range(max(2, per // 2)):
+                v = idlgen.gen_value(items, ("ref", it["name"]), r, r.randrange(0, 3))
+                want = idlgen.expected(items, it["name"], v)
+                for p in PROTOS:
+                    out.append(f"gd {d['name']} {it['name']} {p} {idlgen.sexp(v)} => {want} C02")
+                out += async_lines(r, d, it, v, want, "C02", every=True)
     return out
 
 
@@ -135,8 +156,11 @@ def requests_C08(docs, emitted, seed, tier):
                 for p in PROTOS:
                     if hz and p == "ubin":
                         continue      # the unchecked reader has no bounds checks: a misread value is undefined behaviour, not an answer
-                    if r.random() < (0.5 if tier == "quick" else 1.0):
+                    directed = any(i in (77, 1234, -7) and x[0] == "bool" for i, x in w[1])
+                    if directed or r.random() < (0.5 if tier == "quick" else 1.0):
                         out.append(f"gd {d['name']} {it['name']} {p} {idlgen.sexp(w)}{mark} => {want} C08")
+                if not hz:
+                    out += async_lines(r, d, it, w, want, "C08", every=not d["name"].startswith("r"))
     return out
 
 
